@@ -27,20 +27,29 @@ def search(seed=0, N=150):
     class C(BaseModel):
         inner: Inner
         n: int = 0
-    schemas = [A, B, C]
+    class D_(BaseModel):
+        label: str
+        count: int
+        ratio: float
+        ok: bool
+    schemas = [A, B, C, D_]
 
     def inst(S):
         if S is A:
             return A(name=rnd.choice(["Al", "True", "x,y", "it's", '{"q": 1}']), age=rnd.randint(-5, 99))
         if S is B:
             return B(price=rnd.choice([0.0, 1.5, 100.0]), ok=rnd.random() < 0.5, tags=rnd.choice([[], ["a"], ["a", "b c"]]), note=rnd.choice([None, "n"]))
+        if S is D_:
+            return D_(label=rnd.choice(["a", "17", "lab el"]), count=rnd.randint(0, 9), ratio=rnd.choice([0.5, 2.0]), ok=rnd.random() < 0.5)
         return C(inner=Inner(k=rnd.randint(0, 9), t=rnd.choice(["x", "None"])), n=rnd.randint(0, 3))
     corrupt = [
         lambda s: s, lambda s: "```json\n" + s + "\n```", lambda s: "Here you go:\n```\n" + s + "\n```\nbye", lambda s: "<json>" + s + "</json>",
         lambda s: "The answer is " + s + " as requested.", lambda s: s.replace('"', "'"), lambda s: s[:-1] + ",}" if s.endswith("}") else s,
         lambda s: s.replace("true", "True").replace("false", "False").replace("null", "None"), lambda s: s[: max(1, len(s) // 2)],
-        lambda s: s.replace(": 1", ': "1"').replace(": 0", ': "0"'), lambda s: "[" * 3000 + s + "]" * 3000, lambda s: "{" * 50000,
+        lambda s: s.replace(":1", ':"1"').replace(":0", ':"0"').replace(": 1", ': "1"').replace(": 0", ': "0"'), lambda s: "[" * 3000 + s + "]" * 3000, lambda s: "{" * 50000,
         lambda s: s + s, lambda s: "", lambda s: "null", lambda s: "1" * 5000, lambda s: '{"name": 5, "age": "x"}', lambda s: "\ud800" + s,
+        # type swaps the other way round: every string value becomes a number (no string is left at the top level), a number becomes a string
+        lambda s: __import__("re").sub(r':\s*"[^"]*"', ": 17", s), lambda s: __import__("re").sub(r":\s*(\d+)", r': "\1"', s, count=1),
     ]
     orders = [None, [FoldingStrategy.STRICT], [FoldingStrategy.REPAIR, FoldingStrategy.STRICT], [FoldingStrategy.LENIENT, FoldingStrategy.EXTRACTION],
               [FoldingStrategy.EXTRACTION, FoldingStrategy.REPAIR, FoldingStrategy.LENIENT, FoldingStrategy.STRICT]]
@@ -88,7 +97,7 @@ def search(seed=0, N=150):
 if __name__ == "__main__":
     seed = int(os.environ.get("VERIF_SEED", "0") or 0)
     n, bad = search(seed, 150 if "--thorough" not in sys.argv else 1500)
-    out = {"status": "ok" if bad is None else "violation", "bound": "3 schemas x random instances x 18 corruption operators x strategy orders (seeded)", "cases": n}
+    out = {"status": "ok" if bad is None else "violation", "bound": "4 schemas x random instances x 20 corruption operators x strategy orders (seeded)", "cases": n}
     if bad:
         out["detail"] = bad
         os.makedirs("replays", exist_ok=True)
